@@ -349,7 +349,14 @@ def run(tier, seed):
     res = corr.run('c05', cases, lambda c: 'numval -', lambda c: '~', oracle, chunk=40)
     for case, why in res['oracle_fail'][:8]:
         findings.add('prefs', repr(short(case[1])) + ' seed %d' % case[0], why)
+    # how much of Out.append and of the declaration-block serialiser do the inputs execute (a measurement, not a verdict)
+    coverage_lines = lib.modelled_code_coverage([('css_parser.serialize', 'Out.append'), ('css_parser.serialize', 'Out.value'),
+                                                 ('css_parser.serialize', 'CSSSerializer.do_css_CSSStyleDeclaration'),
+                                                 ('css_parser.serialize', 'CSSSerializer.do_CSSStyleSheet')],
+                                                [lambda c=c: out_py(c) for c in oc[::max(1, len(oc) // 400)]] +
+                                                [lambda c=c: c05o.omit_py(c) for c in mc[::max(1, len(mc) // 200)]], limit=700)
     coverage = {
+        'modelled_code_line_coverage': coverage_lines,
         'evaluations': res['n'] + resO['n'] + resM['n'],
         'distinct_nontrivial': res['n'] + resO['n'] + resM['n'],
         'rule': 'a greedy pairwise-covering array over 18 boolean and 9 string-valued preferences (%d rows: every pair of values '
